@@ -1,0 +1,76 @@
+//go:build verif
+
+package mcap
+
+import (
+	"fmt"
+	"sort"
+)
+
+// This file is compiled only with the "verif" build tag. It adds read-only accessors used by the
+// verification harness under /verif; it changes no behaviour.
+
+// VerifSlotState describes the chunk slots of an index-based message iterator.
+type VerifSlotState struct {
+	// Slots is the number of chunk slots allocated so far.
+	Slots int
+	// Live is the number of slots that still hold unread messages.
+	Live int
+	// Capacity is the total capacity, in bytes, of all slot buffers.
+	Capacity int
+	// Pending is the number of message index entries not yet yielded.
+	Pending int
+	// RecordBuf is the capacity of the compressed-chunk read buffer.
+	RecordBuf int
+}
+
+// VerifSlots reports the chunk-slot state of it. ok is false when it is not index-based.
+func VerifSlots(it MessageIterator) (st VerifSlotState, ok bool) {
+	ii, ok := it.(*indexedMessageIterator)
+	if !ok {
+		return st, false
+	}
+	st.Slots = len(ii.chunkSlots)
+	for i := range ii.chunkSlots {
+		if ii.chunkSlots[i].unreadMessages > 0 {
+			st.Live++
+		}
+		st.Capacity += cap(ii.chunkSlots[i].buf)
+	}
+	st.Pending = len(ii.messageIndexes) - ii.curMessageIndex
+	st.RecordBuf = cap(ii.recordBuf)
+	return st, true
+}
+
+// VerifUnindexedBuf reports the capacity of the record buffer of a non-indexed iterator and of
+// the chunk buffer of its lexer. ok is false when it is index-based.
+func VerifUnindexedBuf(it MessageIterator) (recordBuf int, chunkBuf int, ok bool) {
+	ui, ok := it.(*unindexedMessageIterator)
+	if !ok {
+		return 0, 0, false
+	}
+	return cap(ui.recordBuf), cap(ui.lexer.uncompressedChunk), true
+}
+
+// VerifLexerChunkCap reports the capacity of the lexer's decompressed-chunk buffer.
+func VerifLexerChunkCap(l *Lexer) int {
+	return cap(l.uncompressedChunk)
+}
+
+// VerifWriterState renders the bookkeeping state of a writer in a canonical form.
+func VerifWriterState(w *Writer) string {
+	ids := append([]uint16(nil), w.channelIDs...)
+	counts := make([]string, 0, len(w.Statistics.ChannelMessageCounts))
+	for k, v := range w.Statistics.ChannelMessageCounts {
+		counts = append(counts, fmt.Sprintf("%d:%d", k, v))
+	}
+	sort.Strings(counts)
+	buffered := int64(0)
+	if w.compressedWriter != nil {
+		buffered = w.compressedWriter.Size()
+	}
+	return fmt.Sprintf("size=%d closed=%v chans=%v schemas=%v counts=%v chunks=%d att=%d meta=%d buffered=%d cur=[%d,%d,%d] stats=%+v",
+		w.w.Size(), w.closed, ids, w.schemaIDs, counts, len(w.ChunkIndexes), len(w.AttachmentIndexes), len(w.MetadataIndexes),
+		buffered, w.currentChunkStartTime, w.currentChunkEndTime, w.currentChunkMessageCount,
+		[]uint64{w.Statistics.MessageCount, uint64(w.Statistics.ChunkCount), w.Statistics.MessageStartTime, w.Statistics.MessageEndTime})
+}
